@@ -93,6 +93,10 @@ var props = map[string]*propCfg{}
 func init() {
 	props["C10"] = &propCfg{Scenarios: []scenarioRef{{"transfer_clean", 2}, {"transfer_byz", 3}}, Level: "exploration",
 		Rule: "plans (layout, knobs, actors, fault steps) generated from the seed; a run is non-trivial if at least one piece write reached the simulated disk; distinct = distinct event-trace hashes among non-trivial runs"}
+	props["C15"] = &propCfg{Scenarios: []scenarioRef{{"trackers", 1}}, Level: "exploration",
+		Rule: "1-3 torrents announcing to 1-3 tiers of scripted HTTP and UDP trackers whose reply scripts are generated (ok with any 32-bit interval / min interval or none, failure with retry-in, 4xx/5xx, garbage, oversize, no reply, delays; UDP: wrong transaction id, short, duplicate, datagram loss/duplication, connection-id expiry), down windows, start/stop/announce commands, optional seed so that 'completed' happens; every announce is checked online (info-hash, port, peer id vs handshake, counters, event discipline per run, spacing); non-trivial if more than two announces were received; distinct = distinct event-trace hashes among non-trivial runs"}
+	props["C16"] = &propCfg{Scenarios: []scenarioRef{{"trackers", 1}}, OwnsCrash: true, Level: "exploration",
+		Rule: "same tracker worlds run for 0.5-12 simulated hours; oracles: fail-over order inside HTTP-only tiers judged on the outcome the client saw (reply fully written while the request was alive; cancels and down windows excluded), full-cycle coverage, bounded silence per tier while the torrent runs (tracker-directed waits honoured), per-reply read limit via transport byte counts, replies under a wrong transaction id never used, no crash; non-trivial if more than two announces were received; distinct = distinct event-trace hashes among non-trivial runs"}
 	props["C04"] = &propCfg{Scenarios: []scenarioRef{{"lifecycle", 4}, {"transfer_byz", 1}}, OwnsCrash: true, Level: "exploration",
 		Rule: "random command sequences (start/stop/verify/announce/add peer by IP and host name/add tracker/stats/peers/trackers/webseeds/remove/close) with gaps from 0 to minutes, external corrupt/truncate/delete mutations at Stopped points, slow disk and slow tracker, injected write error; oracles: no crash, API calls return, stop/start/verify effects, truthful status at random samples, final convergence; non-trivial if a piece was written or more than two commands ran; distinct = distinct event-trace hashes among non-trivial runs"}
 	props["C05"] = &propCfg{Scenarios: []scenarioRef{{"crash", 1}}, Level: "fault_enumeration",
